@@ -136,6 +136,8 @@ def any_spec(draw):
             c = draw(strategies.tls_conn(max_records=6, max_len=600, ep=ep, delivery=strategies.tcp_delivery(dups=True), bytes_mode_limit=600))
             if c["version"] == 0x0304 and draw(st.integers(0, 2)) == 0:
                 c["hrr"] = draw(st.integers(1, 2))      # what is exported after a HelloRetryRequest is not claimed, that the output is valid is
+            elif c["version"] != 0x0304 and draw(st.integers(0, 4)) == 0:
+                c["sh_comp"] = True                     # likewise for a connection that negotiates DEFLATE
         elif k == "quic":
             c = draw(strategies.quic_conn(max_steps=6, ep=ep))
         else:
